@@ -176,6 +176,9 @@ def _attrs_in_flow(fa: FA, expr, at, param):
     for (n, a_) in flow_nodes(fa, expr, at):
         if isinstance(n, ast.Attribute) and isinstance(n.value, ast.Name) and (n.value.id == param or param_rooted(fa, n.value, a_, param)):
             out.add(n.attr)
+        elif isinstance(n, ast.Call) and isinstance(n.func, ast.Name) and n.func.id == "getattr" and 2 <= len(n.args) <= 3 and A.const_str(n.args[1]) \
+                and isinstance(n.args[0], ast.Name) and (n.args[0].id == param or param_rooted(fa, n.args[0], a_, param)):
+            out.add(A.const_str(n.args[1]))
     return out
 
 
@@ -886,10 +889,67 @@ def _unrolled(fa: FA) -> FA:
     node2 = copy.deepcopy(fa.node)
     # rows are resolved on the ORIGINAL loops (they have CFG nodes): pair the copies with their originals
     origin = {}
+    comp_origin = {}
     for a, b in zip(ast.walk(node2), ast.walk(fa.node)):
         if isinstance(a, ast.For):
             origin[id(a)] = b
+        elif isinstance(a, (ast.DictComp, ast.ListComp)):
+            comp_origin[id(a)] = b
     node2.body = block(node2.body)
+
+    def written_out(c):
+        """{k: f(v) for (k, v) in <literal table>} / [f(x) for x in <literal table>] -> the literal it builds."""
+        orig = comp_origin.get(id(c))
+        if orig is None or len(c.generators) != 1 or c.generators[0].ifs or c.generators[0].is_async:
+            return None
+        st = fa.stmt_of(orig)
+        ids = fa.nodes(st) if st is not None else []
+        if not ids:
+            return None
+        g = orig.generators[0]
+        tg = g.target
+        if isinstance(tg, ast.Name):
+            it = _static(fa, g.iter, ids[0])
+            if not isinstance(it, (ast.Tuple, ast.List)) or any(isinstance(x, ast.Starred) for x in it.elts):
+                return None
+            names, rows = [tg.id], [[x] for x in it.elts]
+        elif isinstance(tg, (ast.Tuple, ast.List)) and all(isinstance(t, ast.Name) for t in tg.elts):
+            rows = _literal_rows(fa, g.iter, ids[0])
+            if rows is None or any(len(r) != len(tg.elts) for r in rows):
+                return None
+            names = [t.id for t in tg.elts]
+        else:
+            return None
+        if not (0 < len(rows) <= 40):
+            return None
+
+        def inst(e, row):
+            env = dict(zip(names, row))
+
+            class T(ast.NodeTransformer):
+                def visit_Name(self, n):
+                    if isinstance(n.ctx, ast.Load) and n.id in env:
+                        return ast.copy_location(copy.deepcopy(env[n.id]), n)
+                    return n
+
+            return T().visit(copy.deepcopy(e))
+
+        if isinstance(c, ast.DictComp):
+            return ast.copy_location(ast.Dict(keys=[inst(c.key, r) for r in rows], values=[inst(c.value, r) for r in rows]), c)
+        return ast.copy_location(ast.List(elts=[inst(c.elt, r) for r in rows], ctx=ast.Load()), c)
+
+    class Comps(ast.NodeTransformer):
+        def visit_DictComp(self, c):
+            self.generic_visit(c)
+            lit = written_out(c)
+            if lit is not None:
+                changed[0] = True
+                return lit
+            return c
+
+        visit_ListComp = visit_DictComp
+
+    node2 = Comps().visit(node2)
     if not changed[0]:
         return fa
     ast.fix_missing_locations(node2)
@@ -1514,8 +1574,9 @@ def check(ck):
     em_by_pair = {}
     ctor_by_pair = {}
     for (name, cls_qual) in PAIRS:
-        enc = FA(ck, "%s.encode_%s" % (MC, name))
-        dec = FA(ck, "%s.decode_%s" % (MC, name))
+        # (loops / comprehensions over a literal table of field names are decided as the entries they stand for)
+        enc = _unrolled(FA(ck, "%s.encode_%s" % (MC, name)))
+        dec = _unrolled(FA(ck, "%s.decode_%s" % (MC, name)))
         d = _emitted(enc)
         ck.need(d is not None, "encode_%s does not return a dict literal" % name)
         em_by_pair[name] = (enc, d)
